@@ -339,19 +339,27 @@ def check_property(pid, tier, seed):
         else:
             log("note: known finding no longer reproduces (%s): %s" % (what, k["what"]))
     nrep = 0
-    for fl in failed:
-        # a failure inside the carve-out of a listed finding is not reported again
-        if any(k.get("obligation") and fl.get("item") and k["obligation"] == fl["item"] for k in known):
-            continue
+    MAX_REPLAYS, MAX_CE_SEARCHES = 12, 4
+    reportable = [fl for fl in failed
+                  # a failure inside the carve-out of a listed finding is not reported again
+                  if not any(k.get("obligation") and fl.get("item") and k["obligation"] == fl["item"] for k in known)]
+    # failed Kani harnesses first: they come with a counterexample from the verifier
+    reportable.sort(key=lambda fl: 0 if fl.get("unit") == "kani" else 1)
+    for fl in reportable[:MAX_REPLAYS]:
         nrep += 1
         ce = None
-        try:
-            ce = REPLAY.find_counterexample(pid, fl, REPO, WORK, ROOT, log)
-        except Exception as e:  # counterexample search is best effort
-            log("note: counterexample search failed: %r" % (e,))
+        if nrep <= MAX_CE_SEARCHES:
+            try:
+                ce = REPLAY.find_counterexample(pid, fl, REPO, WORK, ROOT, log)
+            except Exception as e:  # counterexample search is best effort
+                log("note: counterexample search failed: %r" % (e,))
         payload = {"property": pid, "obligation": "%s/%s" % (fl["unit"], fl["item"]), "class": fl["class"],
                    "verifier_message": fl["message"], "verifier_output": fl.get("rendered", ""),
                    "source_line": fl.get("text", ""), "tree": th, "counterexample": ce}
+        if nrep == min(MAX_REPLAYS, len(reportable)) and len(reportable) > MAX_REPLAYS:
+            payload["further_failed_obligations"] = ["%s/%s: %s" % (x["unit"], x["item"], x["message"][:120]) for x in reportable[MAX_REPLAYS:]]
+        if nrep > MAX_CE_SEARCHES:
+            payload["note"] = "counterexample search is run for the first %d failed obligations of a check only" % MAX_CE_SEARCHES
         path = write_replay(pid, nrep, payload)
         if ce and ce.get("confirmed"):
             violations.append("VIOLATION property=%s replay=%s" % (pid, path))
